@@ -2181,6 +2181,16 @@ def run(ctx: Ctx) -> int:
 	with ctx.timed('translate'):
 		tr_ok, tr_msg = run_translators(ctx)
 	proof = common.prove(ctx, PROP, leanchecker=ctx.thorough)
+	for _ in range(2):
+		# the module built but the audit printed nothing for ANY theorem: the audit process itself did not run (the object files were
+		# being rewritten by a concurrent build of the shared project, which the audit does not lock) — an infrastructure hiccup, not
+		# a verdict; a theorem that is really missing stays missing on the retry
+		if not (proof.built and proof.theorems and all(t.get('axioms') is None for t in proof.theorems)):
+			break
+		import time
+		time.sleep(5.0)
+		ctx.notes.append('axiom audit returned nothing for every theorem of a module that built: audit repeated') if hasattr(ctx, 'notes') else None
+		proof = common.prove(ctx, PROP, leanchecker=ctx.thorough)
 	streams: list[Stream] = []
 	if proof.built:
 		with ctx.timed('correspondence'):
